@@ -36,7 +36,7 @@ Section Disto.
 Context {T : Type}.
 Variable A : arith T.
 
-Definition bin := (T * Z)%type.
+Local Notation bin := (T * Z)%type.
 
 (* min_diff is None in a fresh histogram, +inf after load() of fewer than two bins *)
 Inductive ext := Inf | Fin (x : T).
